@@ -126,6 +126,40 @@ def generate(tier):
                             yield (kind, ctx, wh, rid + '/handled', impls, mode, item_text(kind, ctx, wh, ms, '#[educe(%s)] ' % h0, ('#[educe(%s)] ' % h1) if kind != 'enum' else ''))
 
 
+def wf_cases():
+    """types whose own where-clause is required for well-formedness (an associated type of a parameter, a ?Sized parameter):
+    every impl educe emits — including impls nested inside generated function bodies — has to repeat it, or the expansion does not compile"""
+    out = []
+    decls = {
+        'assoc-struct': ("pub struct Ty<S> where S: Assoc {{ {F0}pub f0: S::Out, {F1}pub f1: u8 }}", 'Ty<u8>'),
+        'assoc-tuple': ("pub struct Ty<S>({F0}pub S::Out, {F1}pub u8) where S: Assoc;", 'Ty<u8>'),
+        'assoc-enum': ("pub enum Ty<S> where S: Assoc {{ {VD}V0({F0}S::Out, {F1}u8), V1 {{ {F1}f0: u8 }} }}", 'Ty<u8>'),
+        'unsized': ("pub struct Ty<'a, L> where L: ?Sized {{ {F0}pub f0: &'a L, {F1}pub f1: u8 }}", "Ty<'static, str>"),
+        'unsized-enum': ("pub enum Ty<'a, L> where L: ?Sized {{ {VD}V0({F1}u8), V1 {{ {F0}f0: &'a L, {F1}f1: u8 }} }}", "Ty<'static, [u8]>"),
+    }
+    sets = {
+        'Debug-method': ('Debug', {'F1': 'Debug(method(fmt_any))'}),
+        'Debug-method0': ('Debug', {'F0': 'Debug(method(fmt_any))'}),
+        'Debug-both': ('Debug(bound = false)', {'F0': 'Debug(method(fmt_any))', 'F1': 'Debug(method(fmt_any))'}),
+        'Debug-plain': ('Debug', {}),
+        'Clone': ('Clone', {'F1': 'Clone(method(clone_any))'}),
+        'PartialEq': ('PartialEq', {'F1': 'PartialEq(method(eq_any))'}),
+        'Hash': ('Hash', {'F1': 'Hash(method(hash_any))'}),
+        'PartialOrd': ('PartialEq, PartialOrd', {'F1': 'PartialOrd(method(pcmp_any))'}),
+        'all': ('Debug, Clone, PartialEq, Hash', {'F1': 'Debug(method(fmt_any)), Clone(method(clone_any)), PartialEq(method(eq_any)), Hash(method(hash_any))'}),
+    }
+    for dk, (decl, inst) in decls.items():
+        for sk, (tl, fm) in sets.items():
+            if 'unsized' in dk and sk in ('Clone', 'all') and False:
+                continue
+            f0 = '#[educe(%s)] ' % fm['F0'] if 'F0' in fm else ''
+            f1 = '#[educe(%s)] ' % fm['F1'] if 'F1' in fm else ''
+            src = '#[derive(Educe)]\n#[educe(%s)]\n%s\n' % (tl, decl.format(F0=f0, F1=f1, VD=''))
+            src += 'pub fn check(_r: &mut Rep) {\n    fn assert_wf<T: ?Sized>() {}\n    assert_wf::<%s>();\n}\n' % inst
+            out.append(Case('C12|wf|%s|%s' % (dk, sk), src, {'declaration': dk, 'traits': sk}, expect='accept', run=False, depth=2))
+    return out
+
+
 def check(v, tier, only=None):
     binary = xp.build_xp()
     xp.init_canon(binary)
@@ -221,6 +255,18 @@ def check(v, tier, only=None):
             nontriv += 1
         if problems:
             v.violation(case, ' ;; '.join(problems[:3]))
+    if not only or only.startswith('C12|wf|'):
+        from ..core import rt_run
+        wf = [c for c in wf_cases() if not only or c.key == only]
+        for r_ in rt_run(wf, run=False, name='C12wf'):
+            v.cov['states'] += 1
+            v.cov['transitions'] += 2
+            v.cov['evaluations'] += 1
+            if r_.status != 'ok':
+                v.violation(r_.case, 'a type whose where-clause is needed for well-formedness: the expansion does not compile (an emitted impl does not repeat the where-clause?): %s' % '; '.join(
+                    (d['code'] or '') + ' ' + d['msg'][:160] for d in r_.errors()[:2]))
+            else:
+                v.cov['traces_validated_against_impl'] += 1
     v.cov['distinct_nontrivial'] = nontriv
     for rq in reqs[::max(1, len(reqs) // 6)][:6] if reqs else []:
         v.sample({'kind': rq[0], 'generics': rq[1][1], 'where': rq[2][1], 'request': rq[3], 'bound': rq[5][1], 'input': rq[6]})
